@@ -40,12 +40,13 @@ func defsC02(tier string) []*ph.Def {
 func init() {
 	(&specSweepCheck{
 		id: "C02",
-		rule: "input-space exploration: every argv of length <= L over a 22-token alphabet (values, numbers, key=value, ranges, empty string, `-`, `--`, option-looking tokens, command name, the option itself with and without attached value) " +
+		rule: "input-space exploration: every argv of length <= L over a 22-token alphabet (values, numbers, key=value, ranges, empty string, `-`, `--`, option-looking tokens, command name, the option itself with and without attached value; for argv shorter than L also zero-padded, hexadecimal, exponent, signed and underscore numerals) " +
 			"for each element type x (min,max) in {(1,1),(1,2),(1,3),(2,2),(2,3),(3,3)} x 3 modes x {fail,pass}; stored values, remaining, sibling option and error compared with the reference intake model; " +
 			"distinct_nontrivial = distinct (definition, argv) cases inside the specified territory",
-		defs:   defsC02,
-		alpha:  []string{"a", "5", "1.5", "k=v", "k=a=b", "=v", "1..3", "3..1", "", "-", "--", "--x", "-5", "c", "--m", "--m=a", "--m=5", "--m=k=v", "--m=k=w=z", "--m=1..3", "-m", "--zz"},
-		depthQ: 4, depthT: 4,
+		defs:     defsC02,
+		alpha:    []string{"a", "5", "1.5", "k=v", "k=a=b", "=v", "1..3", "3..1", "", "-", "--", "--x", "-5", "c", "--m", "--m=a", "--m=5", "--m=k=v", "--m=k=w=z", "--m=1..3", "-m", "--zz"},
+		alphaExt: []string{"010", "08", "007..010", "--m=010", "0x1F", "1e2", "+5", "1_0"}, // numerals on which Go's decimal conversion and other readings (octal, hex, float) disagree
+		depthQ:   4, depthT: 4,
 		facets: ph.Facets{Err: true, ErrDetail: true, Remaining: true, Vals: true, Called: true, CalledAs: true},
 		extra: func(pc *parserCase, info specInfo) ([]string, []string) {
 			var cs []string
@@ -63,10 +64,10 @@ func init() {
 	(&specSweepCheck{
 		id: "C08",
 		rule: "input-space exploration: every argv of length <= L over {unknown long/short/bundled options with and without attached values, known options, value, command, wrapper command (UnsetOptions), positional, terminator} " +
-			"x 3 unknown modes x 3 single-dash modes on a tree root{a,s,m map(1,2),li []int(1,2),help}/c{d}/w(wrapper); error (class and quoted name), warnings written to Writer, remaining and known option values compared with the reference model; " +
+			"x 3 unknown modes x 3 single-dash modes (plus 18 configurations in which the command sets another unknown-mode than the root) on a tree root{a,s,m map(1,2),li []int(1,2),help}/c{d}/w(wrapper); error (class and quoted name), warnings written to Writer, remaining and known option values compared with the reference model; " +
 			"distinct_nontrivial = distinct (definition, argv) cases inside the specified territory",
 		defs: func(string) []*ph.Def {
-			return configs(func() *ph.Def {
+			base := func() *ph.Def {
 				return &ph.Def{Help: "help", Root: ph.CmdDef{Name: "prog",
 					Opts: []ph.OptDef{{Name: "a", Kind: ph.Bool}, {Name: "s", Kind: ph.Str}, {Name: "m", Kind: ph.Map, Min: 1, Max: 2}, {Name: "li", Kind: ph.IntS, Min: 1, Max: 2}},
 					Cmds: []*ph.CmdDef{
@@ -74,7 +75,23 @@ func init() {
 						{Name: "w", Unset: true},
 					},
 				}}
-			}, []bool{false})
+			}
+			ds := configs(base, []bool{false})
+			// the command sets an unknown-mode of its own: an unknown option is judged by the mode of the command the parse ends in
+			for _, d := range configs(base, []bool{false}) {
+				for cu := 0; cu < 3; cu++ {
+					if cu != d.Unknown {
+						d2 := *d
+						root := d.Root
+						kid := *d.Root.Cmds[0]
+						kid.Unknown = cu + 1
+						root.Cmds = []*ph.CmdDef{&kid, d.Root.Cmds[1]}
+						d2.Root = root
+						ds = append(ds, &d2)
+					}
+				}
+			}
+			return ds
 		},
 		alpha:    []string{"--zz", "-z", "-az", "-zy", "--zz=1", "--a", "--s", "v", "c", "w", "p", "--", "--d"},
 		alphaExt: []string{"--help", "--m", "k=v", "--li", "5", "-1"}, // help requested next to an unknown option; unknown options that look like a well-formed element behind a multi-value option
